@@ -327,7 +327,9 @@ def oracle(cases):
       `lru-index-stale`), and an id carried by a listed record is answered;
     * LRU exactness for group records (the cache whose puts this oracle can see), until the first successful rollback
       of the history: `find_group_by_mls_group_id(g)` answers the record last saved iff g is among the last
-      `cache_size` distinct group ids that were saved (reads in between must not count as uses)."""
+      `cache_size` distinct group ids that were saved (reads in between must not count as uses);
+    * the message a full group pushes out is one with the smallest `created_at` (computed by the harness from the
+      group's listing before and after the call)."""
     fails = []
     stats = collections.Counter()
     def fail(c, k, sig, what):
@@ -341,6 +343,10 @@ def oracle(cases):
             t = op.split()
             if out == "panic":
                 fail(c, k, f"panic:{t[0]}", "the call panicked"); continue
+            if t[0] == "save_message" and out.startswith("ok ev:"):
+                stats["cap_victims"] += 1
+                if out.endswith("!not-the-oldest"):
+                    fail(c, k, "lru-cap-victim-not-oldest", f"max_messages_per_group reached: the message pushed out ({out}) is not (only) one with the smallest created_at of the group")
             if t[0] == "save_group" and out == "ok":
                 nid_now[t[1]] = t[2]
                 puts = [g for g in puts if g != t[1]] + [t[1]]
